@@ -160,8 +160,8 @@ def classify(case, rule, detail, log, fault, ck):
         return "late-async-listener-on-sync-machine"
     multi_unless = {g["name"] for t in sc.spec["transitions"] for g in t["guards"]
                     if g["kind"] == "unless" and len(sc.spec["guards"][g["name"]]["providers"]) > 1}
-    if multi_unless and (rule.startswith("C01.") or rule.startswith("C02.")):
-        return "unless-guard-provided-by-several-objects:" + rule.split(".")[0]
+    if multi_unless and not rule.startswith("C12."):
+        return "unless-guard-provided-by-several-objects"
     return rule
 
 
